@@ -73,7 +73,14 @@ type Result struct {
 	CorpusRun     int            `json:"corpus_cases"`
 	Exhaustive    bool           `json:"exhaustive,omitempty"`
 	Notes         []string       `json:"notes,omitempty"`
+	KnownHits     map[string]*KnownHit `json:"known_hits,omitempty"`
 	truncFailures int
+}
+
+type KnownHit struct {
+	What    string  `json:"what"`
+	Count   int     `json:"count"`
+	Example Failure `json:"example"`
 }
 
 type Runner struct {
@@ -134,7 +141,78 @@ func classOf(ans string) string {
 	return "other"
 }
 
+// ---- known findings (committed file, read-only): a failure that matches an `open` entry is counted
+// separately so that it can neither hide nor crowd out a different violation
+
+type knownFinding struct {
+	Property string `json:"property"`
+	ID       string `json:"id"`
+	Status   string `json:"status"`
+	What     string `json:"what"`
+	Match    struct {
+		Op             string   `json:"op"`
+		Args           []string `json:"args"`
+		ArgsPrefix     []string `json:"args_prefix"`
+		DetailContains string   `json:"detail_contains"`
+	} `json:"match"`
+}
+
+var knownFindings []knownFinding
+
+func loadKnown(path, prop string) {
+	data, err := os.ReadFile(path)
+	if err != nil {
+		return
+	}
+	var doc struct {
+		Findings []knownFinding `json:"findings"`
+	}
+	if json.Unmarshal(data, &doc) != nil {
+		return
+	}
+	for _, k := range doc.Findings {
+		if k.Property == prop && k.Status == "open" {
+			knownFindings = append(knownFindings, k)
+		}
+	}
+}
+
+func matchKnownFinding(f Failure) *knownFinding {
+	for i := range knownFindings {
+		k := &knownFindings[i]
+		m := k.Match
+		if m.Op != "" && m.Op != f.Op {
+			continue
+		}
+		if m.Args != nil && strings.Join(m.Args, " ") != strings.Join(f.Args, " ") {
+			continue
+		}
+		if m.ArgsPrefix != nil && (len(f.Args) < len(m.ArgsPrefix) || strings.Join(m.ArgsPrefix, " ") != strings.Join(f.Args[:len(m.ArgsPrefix)], " ")) {
+			continue
+		}
+		if m.DetailContains != "" && !strings.Contains(f.Detail, m.DetailContains) {
+			continue
+		}
+		return k
+	}
+	return nil
+}
+
 func (r *Runner) addFailure(f Failure, drift bool) {
+	if !drift {
+		if k := matchKnownFinding(f); k != nil {
+			if r.res.KnownHits == nil {
+				r.res.KnownHits = map[string]*KnownHit{}
+			}
+			h := r.res.KnownHits[k.ID]
+			if h == nil {
+				h = &KnownHit{What: k.What, Example: f}
+				r.res.KnownHits[k.ID] = h
+			}
+			h.Count++
+			return
+		}
+	}
 	trunc := func(s string) string {
 		if len(s) > 4000 {
 			return s[:4000] + "…(" + fmt.Sprint(len(s)) + " bytes)"
